@@ -344,6 +344,22 @@ func cmdCheck(args []string) int {
 			jr.Err = err.Error()
 		}
 		results = append(results, jr)
+		if os.Getenv("SYMGO_FORKS") != "" {
+			type kv struct {
+				k string
+				n int
+			}
+			var l []kv
+			for k, n := range jr.Sum.ForkSites {
+				l = append(l, kv{k, n})
+			}
+			sort.Slice(l, func(i, j int) bool { return l[i].n > l[j].n })
+			for i, x := range l {
+				if i < 12 {
+					fmt.Fprintf(os.Stderr, "    forks %6d  %s\n", x.n, x.k)
+				}
+			}
+		}
 		fmt.Fprintf(os.Stderr, "[%s] job %s: %d paths (%v) in %.1fs, %d queries, solver %.1fs, violations %v, problems %v %s\n",
 			prop, j.Name, jr.Sum.Paths, jr.Sum.ByStatus, jr.Wall, jr.Sum.Queries, jr.Sum.SolverTime.Seconds(), jr.Sum.ViolCount, jr.Sum.Problems, jr.Sum.Incomplete)
 	}
